@@ -29,8 +29,10 @@ def _params(o):
 
 def oracle_grid(p):
     cls, x, n1, c = p["cls"], np.asarray(p["x"]), p["n1"], p["c"]
-    o1 = C.make(cls, x, n1, 1.0, False, p.get("cfg"))
-    o2 = C.make(cls, x, n1 * c, 1.0, False, p.get("cfg"))
+    # "frequency scaling off": every value the attribute accepts for off (False, 0, 0.0, numpy.False_)
+    off = [False, 0, 0.0, np.False_][p.get("off", 0)]
+    o1 = C.make(cls, x, n1, 1.0, off, p.get("cfg"))
+    o2 = C.make(cls, x, n1 * c, 1.0, off, p.get("cfg"))
     a1, a2 = np.asarray(o1.psd), np.asarray(o2.psd)
     out = []
     sub = a2[::c][: len(a1)]
@@ -115,7 +117,8 @@ def gen(rng, nrng, tier):
         xb = nrng.standard_normal(N) + (1j * nrng.standard_normal(N) if cplx else 0)
         cfg = C.random_cfg(nrng, cls, N, boundary=(i % 3 == 2))
         nmin = C.min_nfft(cls, N, cfg)
-        yield ("grid", {"cls": cls, "x": xb, "n1": [nmin, nmin + 1, max(nmin, 33)][i % 3], "c": [2, 3][i % 2], "cfg": cfg})
+        yield ("grid", {"cls": cls, "x": xb, "n1": [nmin, nmin + 1, max(nmin, 33)][i % 3], "c": [2, 3][i % 2], "cfg": cfg,
+                        "off": (i // len(C.CLASSES)) % 4})
     # the smallest admissible NFFT of each class against its multiples
     for cplx in (True, False):
         xb = nrng.standard_normal(N) + (1j * nrng.standard_normal(N) if cplx else 0)
